@@ -82,8 +82,8 @@ BlockAlgs(blk) ==
     [] OTHER            -> IF Full THEN {"HS256", "ES256", "RS256", "PS256"} ELSE {"HS256", "ES256"}
 Ctxs(blk) ==
   CASE blk = "time"     -> IF Full THEN {"pass", "badsig", "crit"} ELSE {"pass"}
-    [] blk = "header"   -> IF Full THEN {"pass", "expired"} ELSE {"pass"}
-    [] blk = "presence" -> IF Full THEN {"pass", "badsig", "expired"} ELSE {"pass"}
+    [] blk = "header"   -> {"pass"}
+    [] blk = "presence" -> IF Full THEN {"pass", "badsig"} ELSE {"pass"}
     [] blk = "timefrac" -> {"pass"}
     [] OTHER            -> {"pass", "badsig", "expired"}
 
@@ -188,11 +188,13 @@ AlgHdr(a, x) == CASE x = "own" -> Str(a) [] x = "other" -> Str(Alg2(a)) [] x = "
                   [] x = "absent" -> Absent [] x = "number" -> Other("7") [] x = "null" -> Other("null")
 KidHdrs == IF Full THEN {Absent, Str("AQIDBA"), Str("_____g"), Str("kidA"), Str("kidB"), Str("zzz"), Other("7"), Other("null")}
            ELSE {Absent, Str("AQIDBA"), Str("kidA"), Str("zzz"), Other("7")}
-Crits == IF Full THEN {"absent", "list", "empty", "null"} ELSE {"absent", "list"}
+Crits == IF Full THEN {"list", "empty", "null"} ELSE {"list"}
+\* the full product without crit, plus crit in its three JSON shapes where everything else varies less
 HeaderParams(a) ==
-  {<<sh, sg, al, kd, cr>> : sh \in KeysetShapes,
-                            sg \in {x \in SignerShapes : x[3] = "confusion" => a \notin JWSMacAlgs},
-                            al \in AlgShapes, kd \in KidHdrs, cr \in Crits}
+  LET sgs == {x \in SignerShapes : x[3] = "confusion" => a \notin JWSMacAlgs} IN
+  {<<sh, sg, al, kd, "absent">> : sh \in KeysetShapes, sg \in sgs, al \in AlgShapes, kd \in KidHdrs}
+  \cup {<<sh, sg, "own", kd, cr>> : sh \in KeysetShapes, sg \in {<<"m1", "own", "good">>, <<"m1", "own", "flipped">>},
+                                    kd \in KidHdrs, cr \in Crits}
 HeaderMake(a, p) ==
   Case("header", a, HdrKeyset(a, p[1]),
        [DefTok(a) EXCEPT !.signer = [mat |-> p[2][1], alg |-> IF p[2][2] = "own" THEN a ELSE Alg2(a), mode |-> p[2][3]],
